@@ -1,25 +1,32 @@
 //@unit asql_parse
 //@serves C19 C02
 //@backend verus
-// autoSql schema parser (bed::autosql::parse): the FUNCTIONAL result of the grammar-level functions on the language the
-// schema generator `bed_autosql` emits, at token level.
-// Property clause (C19): "... the schema it generates from the first BED line declares exactly three plus the number of
-// extra columns fields and the bigBed header's field count equals that; ... The schema parser ... parses every schema the
-// generator emits."  The header's field count is obtained by PARSING the generated text (unit write_pre takes it from the
-// last declaration `parse_autosql` returns), so the clause needs
-//      parse_autosql(text generated for n extra columns) == Ok([one declaration with exactly 3 + n fields]).
+// autoSql schema parser (bed::autosql::parse): the FUNCTIONAL result of the grammar-level functions, at token level.
+// Property clauses (C19): "... the schema it generates from the first BED line declares exactly three plus the number of
+// extra columns fields and the bigBed header's field count equals that; a schema supplied to the tool or the library is
+// stored ... with its declared field count (the library's default is the three-field BED schema). The schema parser ...
+// parses every schema the generator emits."  The header's field count is obtained by PARSING the text (unit write_pre takes
+// it from the last declaration `parse_autosql` returns), so the clauses need
+//      parse_autosql(text generated for n extra columns) == Ok([one declaration with exactly 3 + n fields])
+// and, for a supplied schema, "number of parsed fields == number of declared fields".
 // Unit asql_loops proves that parsing terminates, stays in bounds and never panics -- not what it returns.  This unit cuts
-// the same functions and proves, over a token model of the tokenizer (assumption A1', NOTES.md):
-//   (a) parse_field_list on `F_1 .. F_m )`, F_i = `TYPE NAME ; "comment"` or `TYPE [ SIZE ] NAME ; "comment"` (TYPE one of
-//       the 12 simple types), returns Ok(fields), fields.len() == m, field i = (TYPE_i, SIZE_i, NAME_i, comment_i), and
-//       stops in front of the `)`;
-//   (b) parse_declaration on `table|simple|object NAME "comment" ( F_1 .. F_m )` returns Ok(Some(that declaration)) and
-//       stops behind the `)`; at end of input it returns Ok(None);
-//   (c) parse_autosql on a text whose tokens are `gen_stream(n)` -- the tokens of what bed_autosql emits for n extra
-//       columns -- returns Ok(vec![d]) with d.fields.len() == 3 + n, field j having the generated type and name.
+// the same functions and proves, over a token model of the tokenizer (assumption A1', NOTES.md), for the autoSql grammar
+//      declaration := ("table"|"simple"|"object") name COMMENT "(" field+ ")"
+//      field       := type ["[" SIZE "]"] NAME tail ";" COMMENT
+//      type        := keyword type | ("enum"|"set") "(" VALUE {"," VALUE} ")" | ("simple"|"object") name
+//      name        := NAME tail          tail := ["primary" | "unique" | "index" ["[" SIZE "]"]] ["auto"]
+//   (a) parse_field_list on `field_1 .. field_m )` returns Ok(fields), fields.len() == m, field i having the type, size,
+//       name, index clause, auto flag and comment of field_i, and stops in front of the `)`;
+//   (b) parse_declaration on a declaration returns Ok(Some(that declaration)) and stops behind its `)`; at the end of the
+//       lexemes it returns Ok(None);
+//   (c) parse_autosql on a text that is ONE declaration returns Ok(vec![that declaration]); in particular on a text whose
+//       lexemes are `gen_stream(n)` -- what bed_autosql emits for n extra columns -- it returns Ok(vec![d]) with
+//       d.fields.len() == 3 + n, field j having the generated type, size, name and comment.
 // The totality contracts of asql_loops (termination with measure len - pos, cursor monotone, results bounded by the input)
-// are kept on every function: they carry the `decreases` clauses and the branches the generator never takes
-// (enum/set values, index/primary/unique/auto, nested simple/object/table field types).
+// are kept on every function: they carry the `decreases` clauses and hold for EVERY input.
+// NOT under the functional contract (totality only): the `"table"` arm of FieldType::try_parse, the `_ => Ok(None)` arm,
+// the leniencies of the code outside the grammar (missing comment, `enum()` / trailing comma, values separated by anything),
+// every error return, and parse_declaration_list beyond "one declaration, then the end".
 use vstd::prelude::*;
 verus! {
 
@@ -79,6 +86,9 @@ impl Tok {
     /// introduces one is judged by the contracts instead of being rejected by the front end)
     #[verifier::external_body]
     fn eq_other(&self) -> (b: bool) { unimplemented!() }
+    /// `s != "<some other literal>"`: unknown result
+    #[verifier::external_body]
+    fn ne_other(&self) -> (b: bool) { unimplemented!() }
     /// `s != "<literal>"`
     #[verifier::external_body]
     fn ne_lit(&self, l: Lit) -> (b: bool)
@@ -478,6 +488,8 @@ pub open spec fn is_idx_word(ts: Seq<Tok>, q: int) -> bool {
 pub open spec fn idx_bracket(ts: Seq<Tok>, q: int) -> bool {
     is_idx_word(ts, q) && ts[q].lit() == Lit::W_index && q + 1 < ts.len() && ts[q + 1].lit() == Lit::LBracket
 }
+/// (opaque: revealed where the index clause itself is parsed; everywhere else it is just a number of lexemes)
+#[verifier::opaque]
 pub open spec fn idx_w(ts: Seq<Tok>, q: int) -> int { if idx_bracket(ts, q) { 4 } else if is_idx_word(ts, q) { 1 } else { 0 } }
 /// an opened `index [` is `index [ SIZE ]`
 pub open spec fn idx_ok(ts: Seq<Tok>, q: int) -> bool {
@@ -529,6 +541,8 @@ pub open spec fn vals_n(ts: Seq<Tok>, q: int) -> int
 pub open spec fn vals_are(v: Seq<Tok>, ts: Seq<Tok>, q: int) -> bool {
     v.len() == vals_n(ts, q) && forall|i: int| 0 <= i < v.len() ==> (#[trigger] v[i]) == ts[q + 2 * i]
 }
+/// (opaque: revealed where the type itself is parsed)
+#[verifier::opaque]
 pub open spec fn type_w(ts: Seq<Tok>, p: int) -> int {
     if 0 <= p < ts.len() && is_list_type(ts[p].lit()) { 2 + 2 * vals_n(ts, p + 2) }
     else if 0 <= p < ts.len() && is_nested_type(ts[p].lit()) { 1 + name_w(ts, p + 1) }
@@ -559,11 +573,11 @@ pub open spec fn g_semi(ts: Seq<Tok>, p: int) -> int { g_tail(ts, p) + tail_w(ts
 pub open spec fn grp_width(ts: Seq<Tok>, p: int) -> int { g_semi(ts, p) + 2 - p }
 /// a field stands at p and at least one more lexeme follows it
 pub open spec fn grp_ok(ts: Seq<Tok>, p: int) -> bool {
-    &&& type_ok(ts, p) && type_w(ts, p) >= 1
+    &&& type_ok(ts, p) && type_w(ts, p) >= 1 && idx_w(ts, g_tail(ts, p)) >= 0
     &&& g_semi(ts, p) + 2 < ts.len()
     &&& sized_at(ts, p) ==> ts[g_size(ts, p) + 1].word() && ts[g_size(ts, p) + 2].lit() == Lit::RBracket
     &&& ts[g_name(ts, p)].word()
-    &&& idx_ok(ts, g_tail(ts, p))
+    &&& tail_ok(ts, g_tail(ts, p))
     &&& ts[g_semi(ts, p)].lit() == Lit::Semi
     &&& ts[g_semi(ts, p) + 1].quoted()
 }
@@ -719,6 +733,7 @@ proof fn lemma_gen_width(ts: Seq<Tok>, n: int, j: int)
         g_name(ts, gen_start(j)) == gen_start(j) + (if gen_sized(j) { 4int } else { 1int }),
         g_semi(ts, gen_start(j)) == g_name(ts, gen_start(j)) + 1,
 {
+    reveal(type_w); reveal(idx_w);
     assert(gen_group(ts, j));
     let p = gen_start(j);
     assert(type_w(ts, p) == 1);
@@ -735,6 +750,7 @@ proof fn lemma_gen_field(ts: Seq<Tok>, n: int, j: int, f: Field)
         [[L: lemma_gen_field/the_field_parsed_at_the_place_of_generated_field_j_has_its_type_size_name_and_comment]]
         gen_field_is(f, ts, j),
 {
+    reveal(idx_w);
     lemma_gen_width(ts, n, j);
     assert(gen_group(ts, j));
     let p = gen_start(j);
@@ -788,6 +804,7 @@ proof fn lemma_gen(ts: Seq<Tok>, n: int)
         [[L: lemma_gen/a_field_parsed_at_the_place_of_generated_field_j_is_generated_field_j]]
         forall|f: Field, j: int| 0 <= j < 3 + n && #[trigger] field_is(f, ts, gen_start(j)) ==> gen_field_is(f, ts, j),
 {
+    reveal(idx_w);
     assert(tail_w(ts, 2) == 0);
     assert(d_fields(ts, 0) == 4);
     lemma_gen_list(ts, n, 0);
@@ -816,8 +833,23 @@ impl DeclareName {
 //@sub /match next_word \{/ => match next_word.kind() { min=0
 //@sub /"(\w+)" =>/ => Lit::W_\1 => min=0
 //@sub / == "(\w+)"/ => .eq_lit(Lit::W_\1) min=0
+//@sub / != "(\w+)"/ => .ne_lit(Lit::W_\1) min=0
+//@sub / == "\("/ => .eq_lit(Lit::LParen) min=0
+//@sub / != "\("/ => .ne_lit(Lit::LParen) min=0
+//@sub / == "\)"/ => .eq_lit(Lit::RParen) min=0
+//@sub / != "\)"/ => .ne_lit(Lit::RParen) min=0
 //@sub / == "\["/ => .eq_lit(Lit::LBracket) min=0
+//@sub / != "\["/ => .ne_lit(Lit::LBracket) min=0
+//@sub / == "\]"/ => .eq_lit(Lit::RBracket) min=0
 //@sub / != "\]"/ => .ne_lit(Lit::RBracket) min=0
+//@sub / == ";"/ => .eq_lit(Lit::Semi) min=0
+//@sub / != ";"/ => .ne_lit(Lit::Semi) min=0
+//@sub / == ","/ => .eq_lit(Lit::Comma) min=0
+//@sub / != ","/ => .ne_lit(Lit::Comma) min=0
+//@sub / == ""/ => .eq_lit(Lit::Empty) min=0
+//@sub / != ""/ => .ne_lit(Lit::Empty) min=0
+//@sub / == "[^"]*"/ => .eq_other() min=0
+//@sub / != "[^"]*"/ => .ne_other() min=0
 //@ret r
 //@sig
         requires
@@ -841,11 +873,19 @@ impl DeclareName {
             old(parser).ready() && name_ok(old(parser).toks(), old(parser).at()) ==>
                 final(parser).ready() && final(parser).at() == old(parser).at() + name_w(old(parser).toks(), old(parser).at()),
 //@open
-            proof { char_class_facts(); }
+            proof { char_class_facts(); reveal(idx_w); }
 //@end
 }
 
 impl FieldType {
+    /// `FieldType::to_string` of the repository (same impl block, not under contract here), REAL contract at this level of
+    /// abstraction: the keyword for the twelve keyword types, otherwise a non-empty text that is no literal of the grammar
+    /// (`enum(..)`, `set(..)`, `simple ...`).  Present so that an edit that uses the printed type (e.g. as a field's
+    /// name) is judged instead of being refused by the front end.
+    #[verifier::external_body]
+    pub fn to_string(&self) -> (r: Tok)
+        ensures !r.empty(), r.lit() == (if is_simple_type(ft_lit(*self)) { ft_lit(*self) } else { Lit::Other }),
+    { unimplemented!() }
 //@extract method bigtools/src/bed/autosql.rs try_parse "impl FieldType"
 //@presub /\s+\.(?=[a-z_0-9])/ => . min=0
 //@rule R16
@@ -855,16 +895,28 @@ impl FieldType {
 //@sub /: &str = &parser/ => = parser min=0
 //@sub /match field_type \{/ => match field_type.kind() { min=0
 //@sub /"(\w+)" =>/ => Lit::W_\1 => min=0
-//@sub / != "\("/ => .ne_lit(Lit::LParen) min=0
-//@sub / == "\("/ => .eq_lit(Lit::LParen) min=0
-//@sub / == "\)"/ => .eq_lit(Lit::RParen) min=0
-//@sub / == ","/ => .eq_lit(Lit::Comma) min=0
-//@sub / == ";"/ => .eq_lit(Lit::Semi) min=0
 //@sub /(\w+)\.chars\(\)\.next\(\)/ => chars_first(&\1) min=0
 //@sub /(\w+)\.chars\(\)\.(any|all)\(\|(\w+)\| ((?:[^()]|\((?:[^()]|\([^()]*\))*\))*)\)/ => chars_\2(&\1, |\3: char| -> (b__: bool) ensures b__ == (\4) { \4 }) min=0
 //@sub /(\w+)\.chars\(\)\.(any|all)\(char::(\w+)\)/ => chars_\2(&\1, |c__: char| -> (b__: bool) ensures b__ == c__.\3() { c__.\3() }) min=0
-//@sub / == "[^"]*"/ => .eq_other() min=0
 //@sub /vec!\[\]/ => Vec::<Tok>::new() min=0
+//@sub / == "(\w+)"/ => .eq_lit(Lit::W_\1) min=0
+//@sub / != "(\w+)"/ => .ne_lit(Lit::W_\1) min=0
+//@sub / == "\("/ => .eq_lit(Lit::LParen) min=0
+//@sub / != "\("/ => .ne_lit(Lit::LParen) min=0
+//@sub / == "\)"/ => .eq_lit(Lit::RParen) min=0
+//@sub / != "\)"/ => .ne_lit(Lit::RParen) min=0
+//@sub / == "\["/ => .eq_lit(Lit::LBracket) min=0
+//@sub / != "\["/ => .ne_lit(Lit::LBracket) min=0
+//@sub / == "\]"/ => .eq_lit(Lit::RBracket) min=0
+//@sub / != "\]"/ => .ne_lit(Lit::RBracket) min=0
+//@sub / == ";"/ => .eq_lit(Lit::Semi) min=0
+//@sub / != ";"/ => .ne_lit(Lit::Semi) min=0
+//@sub / == ","/ => .eq_lit(Lit::Comma) min=0
+//@sub / != ","/ => .ne_lit(Lit::Comma) min=0
+//@sub / == ""/ => .eq_lit(Lit::Empty) min=0
+//@sub / != ""/ => .ne_lit(Lit::Empty) min=0
+//@sub / == "[^"]*"/ => .eq_other() min=0
+//@sub / != "[^"]*"/ => .ne_other() min=0
 //@ret r
 //@sig
         requires
@@ -889,6 +941,8 @@ impl FieldType {
             [[L: and_exactly_the_type_is_consumed]]
             old(parser).ready() && type_ok(old(parser).toks(), old(parser).at()) ==>
                 final(parser).ready() && final(parser).at() == old(parser).at() + type_w(old(parser).toks(), old(parser).at()),
+//@open
+            proof { reveal(type_w); }
 //@at /let mut values = / nth=1 after
                     let ghost p0 = parser.pos();
 //@loop 1
@@ -954,19 +1008,28 @@ impl FieldType {
 //@sub /parser::Parser<'_>/ => VParser
 //@sub /match next_word \{/ => match next_word.kind() { min=0
 //@sub /"(\w+)" =>/ => Lit::W_\1 => min=0
-//@sub / == "(\w+)"/ => .eq_lit(Lit::W_\1) min=0
-//@sub / == "\["/ => .eq_lit(Lit::LBracket) min=0
-//@sub / != "\]"/ => .ne_lit(Lit::RBracket) min=0
-//@sub / != ";"/ => .ne_lit(Lit::Semi) min=0
-//@sub / == "\)"/ => .eq_lit(Lit::RParen) min=0
-//@sub / != "\)"/ => .ne_lit(Lit::RParen) min=0
-//@sub / == ","/ => .eq_lit(Lit::Comma) min=0
-//@sub / == ";"/ => .eq_lit(Lit::Semi) min=0
 //@sub /(\w+)\.chars\(\)\.next\(\)/ => chars_first(&\1) min=0
 //@sub /(\w+)\.chars\(\)\.(any|all)\(\|(\w+)\| ((?:[^()]|\((?:[^()]|\([^()]*\))*\))*)\)/ => chars_\2(&\1, |\3: char| -> (b__: bool) ensures b__ == (\4) { \4 }) min=0
 //@sub /(\w+)\.chars\(\)\.(any|all)\(char::(\w+)\)/ => chars_\2(&\1, |c__: char| -> (b__: bool) ensures b__ == c__.\3() { c__.\3() }) min=0
-//@sub / == "[^"]*"/ => .eq_other() min=0
 //@sub /vec!\[\]/ => Vec::<Field>::new() min=0
+//@sub / == "(\w+)"/ => .eq_lit(Lit::W_\1) min=0
+//@sub / != "(\w+)"/ => .ne_lit(Lit::W_\1) min=0
+//@sub / == "\("/ => .eq_lit(Lit::LParen) min=0
+//@sub / != "\("/ => .ne_lit(Lit::LParen) min=0
+//@sub / == "\)"/ => .eq_lit(Lit::RParen) min=0
+//@sub / != "\)"/ => .ne_lit(Lit::RParen) min=0
+//@sub / == "\["/ => .eq_lit(Lit::LBracket) min=0
+//@sub / != "\["/ => .ne_lit(Lit::LBracket) min=0
+//@sub / == "\]"/ => .eq_lit(Lit::RBracket) min=0
+//@sub / != "\]"/ => .ne_lit(Lit::RBracket) min=0
+//@sub / == ";"/ => .eq_lit(Lit::Semi) min=0
+//@sub / != ";"/ => .ne_lit(Lit::Semi) min=0
+//@sub / == ","/ => .eq_lit(Lit::Comma) min=0
+//@sub / != ","/ => .ne_lit(Lit::Comma) min=0
+//@sub / == ""/ => .eq_lit(Lit::Empty) min=0
+//@sub / != ""/ => .ne_lit(Lit::Empty) min=0
+//@sub / == "[^"]*"/ => .eq_other() min=0
+//@sub / != "[^"]*"/ => .ne_other() min=0
 //@ret r
 //@sig
     requires
@@ -1034,9 +1097,11 @@ impl FieldType {
             [[L: loop/step/size_and_name_are_parsed_and_the_cursor_is_behind_the_name]]
             assert(gh ==> parser.ready() && parser.at() == g_tail(gts, gp) && field_name == gts[g_name(gts, gp)]
                 && (if sized_at(gts, gp) { field_size == Some(gts[g_size(gts, gp) + 1]) } else { field_size is None }));
-//@at /let next_word = parser\.peek_word\(\);/ nth=2 before optional
+//@at /let auto = / before optional
             [[L: loop/step/the_index_clause_is_parsed_and_the_cursor_is_where_auto_may_stand]]
-            assert(gh ==> parser.ready() && parser.at() == tail_auto(gts, g_tail(gts, gp)) && idx_is(index_type, gts, g_tail(gts, gp)));
+            assert(gh ==> parser.ready() && parser.at() == tail_auto(gts, g_tail(gts, gp)) && idx_is(index_type, gts, g_tail(gts, gp))) by {
+                reveal(idx_w);
+            }
 //@at /let semicolon = / before optional
             [[L: loop/step/the_auto_flag_is_parsed_and_the_cursor_is_at_the_semicolon]]
             assert(gh ==> parser.ready() && parser.at() == g_semi(gts, gp) && auto == auto_at(gts, tail_auto(gts, g_tail(gts, gp))));
@@ -1062,10 +1127,24 @@ impl FieldType {
 //@sub /match declare_type \{/ => match declare_type.kind() { min=0
 //@sub /"(\w+)" =>/ => Lit::W_\1 => min=0
 //@sub /"" =>/ => Lit::Empty => min=0
-//@sub / != "\("/ => .ne_lit(Lit::LParen) min=0
-//@sub / != "\)"/ => .ne_lit(Lit::RParen) min=0
+//@sub / == "(\w+)"/ => .eq_lit(Lit::W_\1) min=0
+//@sub / != "(\w+)"/ => .ne_lit(Lit::W_\1) min=0
 //@sub / == "\("/ => .eq_lit(Lit::LParen) min=0
+//@sub / != "\("/ => .ne_lit(Lit::LParen) min=0
 //@sub / == "\)"/ => .eq_lit(Lit::RParen) min=0
+//@sub / != "\)"/ => .ne_lit(Lit::RParen) min=0
+//@sub / == "\["/ => .eq_lit(Lit::LBracket) min=0
+//@sub / != "\["/ => .ne_lit(Lit::LBracket) min=0
+//@sub / == "\]"/ => .eq_lit(Lit::RBracket) min=0
+//@sub / != "\]"/ => .ne_lit(Lit::RBracket) min=0
+//@sub / == ";"/ => .eq_lit(Lit::Semi) min=0
+//@sub / != ";"/ => .ne_lit(Lit::Semi) min=0
+//@sub / == ","/ => .eq_lit(Lit::Comma) min=0
+//@sub / != ","/ => .ne_lit(Lit::Comma) min=0
+//@sub / == ""/ => .eq_lit(Lit::Empty) min=0
+//@sub / != ""/ => .ne_lit(Lit::Empty) min=0
+//@sub / == "[^"]*"/ => .eq_other() min=0
+//@sub / != "[^"]*"/ => .ne_other() min=0
 //@ret r
 //@sig
     requires
@@ -1100,6 +1179,24 @@ impl FieldType {
 //@rule R8
 //@sub /parser::Parser<'_>/ => VParser
 //@sub /vec!\[\]/ => Vec::<Declaration>::new() min=0
+//@sub / == "(\w+)"/ => .eq_lit(Lit::W_\1) min=0
+//@sub / != "(\w+)"/ => .ne_lit(Lit::W_\1) min=0
+//@sub / == "\("/ => .eq_lit(Lit::LParen) min=0
+//@sub / != "\("/ => .ne_lit(Lit::LParen) min=0
+//@sub / == "\)"/ => .eq_lit(Lit::RParen) min=0
+//@sub / != "\)"/ => .ne_lit(Lit::RParen) min=0
+//@sub / == "\["/ => .eq_lit(Lit::LBracket) min=0
+//@sub / != "\["/ => .ne_lit(Lit::LBracket) min=0
+//@sub / == "\]"/ => .eq_lit(Lit::RBracket) min=0
+//@sub / != "\]"/ => .ne_lit(Lit::RBracket) min=0
+//@sub / == ";"/ => .eq_lit(Lit::Semi) min=0
+//@sub / != ";"/ => .ne_lit(Lit::Semi) min=0
+//@sub / == ","/ => .eq_lit(Lit::Comma) min=0
+//@sub / != ","/ => .ne_lit(Lit::Comma) min=0
+//@sub / == ""/ => .eq_lit(Lit::Empty) min=0
+//@sub / != ""/ => .ne_lit(Lit::Empty) min=0
+//@sub / == "[^"]*"/ => .eq_other() min=0
+//@sub / != "[^"]*"/ => .ne_other() min=0
 //@ret r
 //@sig
     requires
@@ -1152,6 +1249,24 @@ impl FieldType {
 //@rule R6
 //@rule R8
 //@sub /parser::Parser::of/ => VParser::of min=0
+//@sub / == "(\w+)"/ => .eq_lit(Lit::W_\1) min=0
+//@sub / != "(\w+)"/ => .ne_lit(Lit::W_\1) min=0
+//@sub / == "\("/ => .eq_lit(Lit::LParen) min=0
+//@sub / != "\("/ => .ne_lit(Lit::LParen) min=0
+//@sub / == "\)"/ => .eq_lit(Lit::RParen) min=0
+//@sub / != "\)"/ => .ne_lit(Lit::RParen) min=0
+//@sub / == "\["/ => .eq_lit(Lit::LBracket) min=0
+//@sub / != "\["/ => .ne_lit(Lit::LBracket) min=0
+//@sub / == "\]"/ => .eq_lit(Lit::RBracket) min=0
+//@sub / != "\]"/ => .ne_lit(Lit::RBracket) min=0
+//@sub / == ";"/ => .eq_lit(Lit::Semi) min=0
+//@sub / != ";"/ => .ne_lit(Lit::Semi) min=0
+//@sub / == ","/ => .eq_lit(Lit::Comma) min=0
+//@sub / != ","/ => .ne_lit(Lit::Comma) min=0
+//@sub / == ""/ => .eq_lit(Lit::Empty) min=0
+//@sub / != ""/ => .ne_lit(Lit::Empty) min=0
+//@sub / == "[^"]*"/ => .eq_other() min=0
+//@sub / != "[^"]*"/ => .ne_other() min=0
 //@ret r
 //@sig
     ensures
